@@ -11,7 +11,14 @@ spec -> code: the exported outcome table (refuses / share of positions per rank)
 FakeDist.  code -> spec: TLC-simulated behaviours (interleaved iterators, re-construction at
 init_epoch, get_samples_for_epoch, whole orders), canonical histories for every case and seeded
 random drivers are executed on the real objects; every call is recorded and SamplerTrace.tla (TLC)
-must accept every recorded trace, inferring the never-logged Perm[seed, epoch]."""
+must accept every recorded trace, inferring the never-logged Perm[seed, epoch].
+
+SEVERAL iterators of one sampler object may be alive at once (Sampler.tla: slots it[r][h], design
+run Sampler_live_*): an epoch partially consumed, then another epoch requested from the same object
+(iter() again, get_samples_for_epoch(sampler.epoch) - what len() of a bucketed loader does -, the
+whole order), then the first iterator continued.  The live histories, the TLC-simulated behaviours
+and the random drivers interleave such iterators; every iterator's yields must follow the order of
+the (seed, epoch) it was created for."""
 import copy
 import sys
 
@@ -111,6 +118,44 @@ def canonical(N, W, mode, kind, tid):
 
 
 @guarded
+def live_history(N, W, mode, kind, tid):
+    """several iterators of ONE sampler object alive at once, on every rank: (a) epoch 0 partially
+    consumed, the upcoming epoch peeked at completely through get_samples_for_epoch(sampler.epoch)
+    (what len() of a bucketed loader does mid-epoch), epoch 0 continued; (b) two consecutive epochs
+    consumed side by side (zip); (c) three iterators: an epoch, the same epoch again and the whole
+    order of another one, round robin; then every epoch touched once more from a FRESH object started
+    at that epoch."""
+    w = S.World(N, W, mode, kind)
+    live = [r for r in range(W) if w.construct(r, 2, 0)]
+    for r in live:
+        share = len(w.smp[r])
+        h0 = w.begin("iter", r)  # epoch 0
+        for _ in range((share + 1) // 2):
+            w.step(r, h0)
+        h1 = w.begin("get", r, w.smp[r].epoch)  # epoch 1, the counter stays
+        w.drain(r, h1)
+        w.drain(r, h0)
+    for r in live:
+        ha, hb = w.begin("iter", r), w.begin("iter", r)  # epochs 1 and 2
+        pending = [ha, hb]
+        while pending:
+            pending = [h for h in pending if w.step(r, h) == "yield"]
+    for r in live[:2]:
+        hs = [w.begin("iter", r), w.begin("get", r, 3), w.begin("full", r, 0)]  # epoch 3 twice, order of 0
+        pending = list(reversed(hs))
+        if w.step(r, hs[0]) == "end":
+            pending.remove(hs[0])
+        while pending:
+            pending = [h for h in pending if w.step(r, h) == "yield"]
+    for e0 in (0, 1, 2, 3):
+        for r in live:
+            w.construct(r, 2, e0)
+            w.begin("iter", r)
+            w.drain(r)
+    return w.header(tid)
+
+
+@guarded
 def nondistributed(N, mode, kind, dist, tid):
     """no process group / not a member: the sampler must act as rank 0 of 1 whatever the mode"""
     w = S.World(N, 1, mode, kind, dist=dist, fake_world=3)
@@ -138,17 +183,19 @@ def random_driver(rng, tid, maxN, maxW):
         r = rng.randrange(W)
         c = rng.random()
         if r not in w.smp or c < 0.15:
-            if r in w.its:
+            if w.live(r):
                 continue
             w.construct(r, rng.choice([1, 2, 3]), rng.randint(0, S.MAX_TRACE_EPOCH - 1))
-        elif r in w.its:
+        elif w.live(r) and (w.free_slot(r) is None or rng.random() < 0.65):
+            h = rng.choice(w.live(r))
             if c > 0.85:
-                w.abandon(r)  # break out of the loop / islice(len): the iterator is never exhausted
+                w.abandon(r, h)  # break out of the loop / islice(len): the iterator is never exhausted
                 continue
             for _ in range(rng.randint(1, max(1, N))):
                 budget -= 1
-                if w.step(r) == "end":
+                if w.step(r, h) == "end":
                     break
+        # (else: a new iterator, possibly next to live ones of the same object)
         elif c < 0.6:
             if w.smp[r].epoch <= S.MAX_TRACE_EPOCH:
                 w.begin("iter", r)
@@ -157,8 +204,9 @@ def random_driver(rng, tid, maxN, maxW):
         else:
             w.begin("full", r, rng.randint(0, S.MAX_TRACE_EPOCH))
     for r in sorted(w.its):
-        if rng.random() < 0.7:
-            w.drain(r)
+        for h in w.live(r):
+            if rng.random() < 0.7:
+                w.drain(r, h)
     return w.header(tid)
 
 
@@ -170,6 +218,7 @@ def classify(tr, verdict):
     if why.startswith("invariant"):
         name = why.split()[1]
         return {"Disjoint": "overlap", "Cover": "gap-or-unequal-share", "PathIndependent": "order-depends-on-path",
+                "LivePrefixes": "order-depends-on-path",
                 "LenIsYielded": "len", "IgnoreGivesAll": "ignore-not-everything",
                 "SequentialIsIdentity": "order-not-sequential", "SliceOfFull": "slice-not-strided",
                 "RefusesExactly": "raise", "CoordinatesAgree": "coordinates"}.get(name, "invariant-" + name)
@@ -180,13 +229,23 @@ def classify(tr, verdict):
         return "epoch-counter"
     if op == "yield":
         # the spec rejects a yield because the share is exhausted or because it contradicts the
-        # one permutation of that (seed, epoch) (other position, or an index another rank holds)
+        # one permutation of that (seed, epoch) (other position, or an index another rank holds);
+        # if another iterator of the SAME object was created or advanced since this iterator's
+        # previous step, the order depends on the interleaving
+        k = verdict["matched"]
+        for e in reversed(tr["events"][:k]):
+            if e["rank"] != ev["rank"]:
+                continue
+            if e.get("h", 0) == ev.get("h", 0):
+                break
+            if e["op"] in ("iter", "get", "full", "yield"):
+                return "order-depends-on-interleaved-iterators"
         return "order-or-overlap"
     if op == "end":
         k = verdict["matched"]
         n = 0
         for e in reversed(tr["events"][:k]):
-            if e["rank"] != ev["rank"]:
+            if e["rank"] != ev["rank"] or e.get("h", 0) != ev.get("h", 0):
                 continue
             if e["op"] != "yield":
                 break
@@ -208,7 +267,7 @@ def validate_and_report(ctx, traces, name):
                           "N=%d W=%d mode=%s: %s" % (tr["N"], tr["W"], tr["mode"], tr["failed"]),
                           dict(type="trace", trace=tr))
     traces = [tr for tr in traces if not tr.get("failed")]
-    verdicts = _tracecheck.validate(ctx, name, S.TRACE_MOD, S.TRACE_CFG, [for_tlc(t) for t in traces], chunk=800)
+    verdicts = _tracecheck.validate(ctx, name, S.TRACE_MOD, S.TRACE_CFG, [for_tlc(t) for t in traces], chunk=450)
     for tr in traces:
         v = verdicts[tr["tid"]]
         if v is None:
@@ -223,7 +282,7 @@ def validate_and_report(ctx, traces, name):
     return bad
 
 
-def selftest(ctx, traces):
+def selftest(ctx, traces, lives):
     """Binding self-test: corrupted copies of accepted traces must be rejected by TLC."""
     picks = [t for t in traces if t["W"] >= 2 and t["mode"] in ("uneven", "drop") and t["N"] >= 4
              and t["kind"] == "random"][:3]
@@ -246,6 +305,22 @@ def selftest(ctx, traces):
     del c["events"][i]
     c["tid"] = "self-short"
     bad.append(c)
+    # two iterators of one object side by side: from the moment the second exists, the first continues
+    # with the second's elements (a shared buffer reshuffled under it)
+    d = copy.deepcopy(next((t for t in lives if t["W"] == 1 and t["N"] >= 6 and t["kind"] == "random"), None))
+    if d is None:
+        raise MachineryError("self-test: no live history to corrupt")
+    i1 = next(i for i, e in enumerate(d["events"]) if e["op"] == "get")
+    other = [e["a"] for e in d["events"][i1:] if e["op"] == "yield" and e["h"] == d["events"][i1]["h"]]
+    k = sum(1 for e in d["events"][:i1] if e["op"] == "yield")
+    for e in d["events"][i1:]:
+        if e["op"] == "yield" and e["h"] == 0 and k < len(other):
+            e["a"] = other[k]
+            k += 1
+        elif e["op"] == "end" and e["h"] == 0:
+            break
+    d["tid"] = "self-shared-buffer"
+    bad.append(d)
     sub = type(ctx)(ctx.prop, ctx.tier, ctx.seed, ctx.level)
     try:
         v = _tracecheck.validate(sub, "SamplerTrace/selftest", S.TRACE_MOD, S.TRACE_CFG, [for_tlc(t) for t in bad])
@@ -262,7 +337,9 @@ def selftest(ctx, traces):
 # ----------------------------------------------------------------------------- entry points
 def run(ctx):
     ctx.rule = ("spec->code: every case (N<=8, W<=4, mode) x {random, sequential} of the exported outcome "
-                "table on real objects, every rank; code->spec: canonical histories for every case, "
+                "table on real objects, every rank; code->spec: canonical histories for every case, live "
+                "histories (several iterators of one sampler object in flight: peek at the next epoch "
+                "mid-epoch, two epochs side by side, three iterators round robin), "
                 "TLC-simulated behaviours, seeded random drivers (N up to 40, W up to 6), non-distributed "
                 "variants, all validated by SamplerTrace; non-trivial = W > 1, N > 0 and mode != ignore "
                 "(a real split), distinct by (N, W, mode, kind[, history])")
@@ -271,6 +348,8 @@ def run(ctx):
         "get_world_size are replaced by the FakeDist double (exactly what AbstractEpochSampler.__init__ reads)",
         "data sources are range(N) (only len() is used by the samplers)",
         "base seeds 0, 12345, 2^31-1; epochs 0..4",
+        "at most 3 iterators of one sampler object alive at the same time; a sampler object is not "
+        "re-constructed while one of its iterators is alive",
     ]
     cases = S.run_design(ctx)
     table = dict(((c["N"], c["W"], c["mode"]), c) for c in cases if c["kind"] == "seq")
@@ -299,6 +378,11 @@ def run(ctx):
             for mode in S.MODES:
                 for kind in ("random", "seq"):
                     traces.append(canonical(N, W, mode, kind, "canon-%d-%d-%s-%s" % (N, W, mode, kind)))
+    for N in ((0, 1, 2, 3, 4, 5, 7, 8, 13) if ctx.quick else tuple(range(maxN + 1)) + (13, 16, 23)):
+        for W in (1, 2, 3):
+            for mode in (("uneven",) if W == 1 else S.MODES if W == 2 or not ctx.quick else ("drop", "uneven")):
+                for kind in ("random", "seq"):
+                    traces.append(live_history(N, W, mode, kind, "live-%d-%d-%s-%s" % (N, W, mode, kind)))
     for N in (0, 1, 5):
         for mode in S.MODES:
             for kind in ("random", "seq"):
@@ -335,7 +419,8 @@ def run(ctx):
                  if tr["tid"] in ("canon-5-2-drop-random", "sim-3") else None)
     ctx.count("events_validated", sum(len(t["events"]) for t in traces))
     validate_and_report(ctx, traces, "SamplerTrace")
-    selftest(ctx, [t for t in traces if t["tid"].startswith("canon")])
+    selftest(ctx, [t for t in traces if t["tid"].startswith("canon")],
+             [t for t in traces if t["tid"].startswith("live")])
 
 
 def replay(ctx, case):
